@@ -1785,3 +1785,142 @@ Proof.
     intros q P c. apply is_prefix_true in P as [r P].
     destruct q as [|q1 [|q2 [|q3 [|q4 [|q5 q]]]]]; simpl in P; inversion P; subst; vm_compute; discriminate.
 Qed.
+
+(* ================================================================== *)
+(* the view of an upload for ANY anchor: an exact, universal description of finding F1 *)
+
+Lemma no_file_on_before_ensure t x P :
+  no_file_on t x -> no_file_on (ensure_dir t x) P -> no_file_on t P.
+Proof.
+  intros NX NP q Hq c L.
+  destruct (is_prefix q x) eqn:Q.
+  - exact (NX q Q c L).
+  - apply (NP q Hq c). apply look_file. rewrite look_ensure_dir, Q. apply look_file. exact L.
+Qed.
+
+Lemma op_ok_before_ensure A' S0 r1 t1 :
+  r1 <> [] ->
+  no_file_on S0 A' ->
+  op_ok A' (ensure_dir S0 A') (r1, t1) -> op_ok A' S0 (r1, t1).
+Proof.
+  intros Hr NX. unfold op_ok. cbn [fst snd]. destruct t1 as [c1|ch1].
+  - intros [H1 H2]. split.
+    + eapply no_file_on_before_ensure; eauto.
+    + intros chx L. destruct r1 as [|m r]; [congruence|].
+      apply (H2 chx). rewrite lookup_ensure_dir_below. exact L.
+  - intro H. eapply no_file_on_before_ensure; eauto.
+Qed.
+
+Lemma sem_op_after_ensure A' S0 r1 t1 :
+  r1 <> [] -> sem_op A' (ensure_dir S0 A') (r1, t1) = sem_op A' S0 (r1, t1).
+Proof.
+  intro Hr. destruct r1 as [|m r]; [congruence|]. unfold sem_op. cbn [fst snd].
+  destruct t1; unfold write_at, ensure_dir at 1; [|unfold ensure_dir at 2]; apply update_after_ensure.
+Qed.
+
+(* both versions, every input with at least one child: the directory is made (empty) at the destination A
+   and the tree is laid out below the anchor A' -- path by path, and nothing else changes.  For the code as
+   found A' = cwd/<last component>, so whenever that differs from A the children are NOT where the
+   documentation puts them (finding F1); for the fixed code A' = A. *)
+Lemma upload_gen_dir_view fixed cwd fs nm ch dst wi chc :
+  let dst' := final_destination nm dst wi in
+  let A := resolve cwd dst' in
+  let A' := resolve cwd (upload_anchor fixed wi dst' nm) in
+  ch <> [] ->
+  lookup fs cwd = Some (Dir chc) ->
+  wf_tree (Dir ch) ->
+  no_file_on fs A ->
+  compat (ensure_dir fs A) A' (Dir ch) ->
+  exists fs', upload_gen fixed cwd fs nm (Dir ch) dst wi = Ok fs' /\
+              forall q, look fs' q = placed (ensure_dir fs A) A' (Dir ch) q.
+Proof.
+  intros dst' A A' Hch Hc W NF C.
+  set (S0 := ensure_dir fs A) in *.
+  set (ops := bfs (tree_size (Dir ch)) [([], ch)]).
+  assert (SND : sound (Dir ch) ops).
+  { intros r t I. apply (Permutation_in _ (bfs_root_perm ch)) in I.
+    apply nodes_sound in I as (r' & -> & Hr & L); auto. }
+  assert (CMP : forall r t, r <> [] -> lookup (Dir ch) r = Some t -> In (r, t) ops).
+  { intros r t Hr L. apply (Permutation_in _ (Permutation_sym (bfs_root_perm ch))).
+    apply (nodes_complete (Dir ch) [] r t Hr L). }
+  assert (R : run_ok A' (ensure_dir S0 A') ops) by (apply (ops_run_ok S0 A' ch ops); auto).
+  assert (V : forall q, look (fold_left (sem_op A') ops (ensure_dir S0 A')) q = placed S0 A' (Dir ch) q)
+    by (intro q; apply (final_view S0 A' ch ops); auto).
+  assert (NE : ops <> []).
+  { destruct ch as [|[n t] ch']; [congruence|].
+    assert (I : In ([n], t) ops).
+    { apply CMP; [discriminate|]. cbn. rewrite name_eqb_refl. reflexivity. }
+    intro E. rewrite E in I. exact I. }
+  destruct ops as [|[r1 t1] ops'] eqn:EO; [congruence|].
+  assert (Hr1 : r1 <> []) by (apply (SND r1 t1); left; reflexivity).
+  cbn [run_ok] in R. destruct R as [R1 R2].
+  rewrite (sem_op_after_ensure A' S0 r1 t1 Hr1) in R2.
+  exists (fold_left (sem_op A') ((r1, t1) :: ops') S0). split.
+  - pose proof (upload_gen_dir_actual fixed cwd fs nm ch dst wi chc) as H. cbv zeta in H.
+    fold dst' A A' S0 in H. fold ops in H. rewrite EO in H. apply H; auto.
+    cbn [run_ok]. split; [|exact R2].
+    apply op_ok_before_ensure; auto. apply C.
+  - intro q. rewrite <- V. cbn [fold_left]. rewrite (sem_op_after_ensure A' S0 r1 t1 Hr1). reflexivity.
+Qed.
+
+(* consequence: with the code as found, a child [n] of the source is absent from the documented place
+   A/n whenever that path was free and is not on the way to / below the anchor *)
+Lemma upload_dir_child_misplaced cwd fs nm ch dst wi chc n t :
+  let dst' := final_destination nm dst wi in
+  let A := resolve cwd dst' in
+  let A' := resolve cwd (bug_anchor wi dst' nm) in
+  assoc n ch = Some t ->
+  lookup fs cwd = Some (Dir chc) ->
+  wf_tree (Dir ch) ->
+  no_file_on fs A ->
+  compat (ensure_dir fs A) A' (Dir ch) ->
+  look fs (A ++ [n]) = None ->
+  is_prefix A' (A ++ [n]) = false ->
+  is_prefix (A ++ [n]) A' = false ->
+  exists fs', upload cwd fs nm (Dir ch) dst wi = Ok fs' /\
+              look fs' (A ++ [n]) = None /\
+              placed fs A (Dir ch) (A ++ [n]) = Some (entry_of t) /\
+              look fs' (A' ++ [n]) = Some (entry_of t).
+Proof.
+  intros dst' A A' As Hc W NF C Free P1 P2.
+  assert (Hch : ch <> []) by (intros ->; discriminate).
+  destruct (upload_gen_dir_view false cwd fs nm ch dst wi chc Hch Hc W NF C) as (fs' & E & V).
+  exists fs'. split; [exact E|]. cbv zeta in V. fold dst' A in V.
+  change (resolve cwd (upload_anchor false wi dst' nm)) with A' in V.
+  assert (LS : look (Dir ch) [n] = Some (entry_of t)).
+  { unfold look. cbn. rewrite As. reflexivity. }
+  split; [|split].
+  - rewrite V. unfold placed.
+    destruct (strip_prefix A' (A ++ [n])) as [r|] eqn:SP.
+    + apply strip_prefix_Some in SP. rewrite SP in P1. rewrite is_prefix_app in P1. discriminate.
+    + rewrite P2. rewrite look_ensure_dir, is_prefix_longer. exact Free.
+  - unfold placed. rewrite strip_prefix_app, LS. reflexivity.
+  - rewrite V. unfold placed. rewrite strip_prefix_app, LS. reflexivity.
+Qed.
+
+(* non-vacuity of upload_dir_child_misplaced: the first witness of upload_dir_refuted *)
+Lemma child_misplaced_satisfiable :
+  let fs := Dir [] in
+  let ch := [(n_a, File [1])] in
+  let dst' := final_destination n_foo (mkp false [n_x]) false in
+  let A := resolve [] dst' in
+  let A' := resolve [] (bug_anchor false dst' n_foo) in
+  assoc n_a ch = Some (File [1]) /\
+  lookup fs [] = Some (Dir []) /\
+  wf_tree (Dir ch) /\
+  no_file_on fs A /\
+  compat (ensure_dir fs A) A' (Dir ch) /\
+  look fs (A ++ [n_a]) = None /\
+  is_prefix A' (A ++ [n_a]) = false /\
+  is_prefix (A ++ [n_a]) A' = false.
+Proof.
+  cbv zeta. split; [reflexivity|]. split; [reflexivity|]. split.
+  { simpl. repeat (split || constructor); simpl; intuition discriminate. }
+  split.
+  { intros q P c. apply is_prefix_true in P as [r P].
+    destruct q as [|q1 [|q2 [|q3 q]]]; simpl in P; inversion P; subst; vm_compute; discriminate. }
+  split; [|repeat split; reflexivity].
+  apply compat_fresh; [|reflexivity].
+  intros q P c. apply is_prefix_true in P as [r P].
+  destruct q as [|q1 [|q2 q]]; simpl in P; inversion P; subst; vm_compute; discriminate.
+Qed.
